@@ -339,6 +339,16 @@ def _sweep(rep, pp):
                 D1 = np.linalg.norm(cc[:, :, None] - cc[:, None, :], axis=0)
                 if cc.shape[0] != g.dim or not np.allclose(D0, D1, atol=1e-9 * (1 + D0.max())) or not is_rot(R2):
                     rep.violation("map_grid: local coordinates preserve distances", f"{g.dim}d grid", inputs={"t": t.tolist()}, detail="")
+                # the documented option R: with the rotation the function itself computed, the same local coordinates come back
+                try:
+                    cc2, *_rest = call("map_grid", lambda: mg.map_grid(g, R=R2.copy()), {"t": t.tolist(), "grid_dim": g.dim, "R": "as returned"})
+                except _Raised:
+                    continue
+                sw.case(("map_grid with R", g.dim, tuple(np.round(t, 6))), True)
+                D2 = np.linalg.norm(cc2[:, :, None] - cc2[:, None, :], axis=0) if cc2.shape[0] == g.dim else None
+                if D2 is None or not np.allclose(D0, D2, atol=1e-9 * (1 + D0.max())) or not np.allclose(cc2, cc, atol=1e-12 * (1 + np.abs(cc).max())):
+                    rep.violation("map_grid: local coordinates preserve distances", f"{g.dim}d grid, rotation passed through the argument R", inputs={"t": t.tolist()},
+                                  detail="map_grid(g, R=map_grid(g)[3]) differs from map_grid(g)")
         # tangential-normal projection
         for dim in (2, 3):
             N = np.array([d[:dim] for d in dirs if np.linalg.norm(d[:dim]) > 1e-8 * np.linalg.norm(d)]).T
